@@ -18,6 +18,10 @@ pub fn run(rep: &Report) -> serde_json::Value {
         a.next_serial_test_only().store(start_serial, Ordering::Relaxed);
         let n = if rep.thorough() { 5 * MAX as u64 + 10 } else { 3 * MAX as u64 + 10 };
         let mut seen: HashSet<(u32, u32)> = HashSet::with_capacity(n as usize);
+        // the identifiers themselves as keys (what a process table does): every 4096th allocation and the first 64 after each wrap
+        let mut as_keys: HashSet<erltf::types::ExternalPid> = HashSet::new();
+        let mut kept = 0u64;
+        let mut since_wrap = 1000u64;
         let mut prev: Option<(u32, u32)> = None;
         for i in 0..n {
             let p = a.allocate().expect("allocate");
@@ -33,8 +37,15 @@ pub fn run(rep: &Report) -> serde_json::Value {
             if let Some((pid, pser)) = prev {
                 if p.id <= pid { wraps_seen += 1; if p.serial == pser && !(pid == MAX) { rep.violation("number space wrapped without the serial advancing", json!({"index": i, "prev": [pid, pser], "now": [p.id, p.serial]})); break; } }
             }
+            if let Some((pid, _)) = prev { if p.id <= pid { since_wrap = 0; } }
+            since_wrap += 1;
+            if i % 4096 == 0 || since_wrap <= 64 || p.id <= 64 {
+                kept += 1;
+                if !as_keys.insert(p.clone()) { rep.violation("process identifier re-issued by sequential allocation", json!({"index": i, "what": "a set keyed by the identifiers themselves takes it for one it already holds", "pid": format!("<{}.{}.{}>", p.id, p.serial, p.creation)})); break; }
+            }
             prev = Some((p.id, p.serial));
         }
+        if as_keys.len() as u64 != kept { rep.violation("process identifier re-issued by sequential allocation", json!({"what": "identifiers kept as set members collapse", "kept": kept, "distinct": as_keys.len()})); }
         (total, wraps_seen)
     }).collect();
     // "every identifier carries the creation value in force when it was made": every sequence of <= 3 creations from a set
